@@ -1446,6 +1446,14 @@ class Authenticated(BaseClientHandler):
             await self.send_pending_notifications()
 
         self.fetch_while_pending_count = 0
+
+        # A mailbox opened with 'examine' is read-only: fetching a message
+        # body must not set `\Seen`, so every body fetch is a BODY.PEEK.
+        #
+        if self.examine:
+            for fetch_att in cmd.fetch_atts:
+                fetch_att.peek = True
+
         try:
             async with cmd.ready_and_okay(self.mbox):
                 msg_set = (
